@@ -256,7 +256,7 @@ def main(argv=None):
         rc = 2
     required = getattr(prop, "REQUIRED", {}) or {}
     counted = evaluations - sum(excluded.values())
-    if rc == 0 and counted >= 300:
+    if rc == 0 and counted >= 300 and not failures:  # (labels are only recorded for passing cases)
         for lab, frac in required.items():
             if labels.get(lab, 0) < frac * counted:
                 print(f"HARNESS-ERROR property={pid} class '{lab}' only {labels.get(lab, 0)}/{counted} cases "
